@@ -807,6 +807,8 @@ namespace riddle
 
                 do
                 {
+                    if (tk->sym != ID_ID)
+                        error("expected identifier..");
                     ns.emplace_back(*static_cast<id_token *>(tk));
                     tk = next();
                     if (tk->sym == EQ_ID)
